@@ -3,6 +3,47 @@ TB = ("Trusted: rustc nightly MIR at mir-opt-level=0 as a faithful rendering of 
       "analyzer/stdmodel.py; the analyzer itself (tested both ways by selftest/ and seeded/).")
 
 CLAIMS = {
+    "C01": {
+        "category": "other",
+        "text": "Decides the inductive step of 'DATA k carries chunk k' on the MIR of the send worker, for all ACK/fault sequences at once: "
+                "ALIGN (chunks drained from the queue front == advance of the block number, as an identity of mod-2^16 normal forms, no other write), "
+                "BURST (front-to-back, one DATA per element with the element's bytes, wrapping numbering from the block number), FILL (one File::read per "
+                "chunk into a fresh chunk_size buffer, appended, truncated on a short read; the file is an unbuffered File touched only by that read and the "
+                "flush's write_all), QUEUE discipline (push_back / drain-from-front / clear only), and 'nothing appended after the short chunk' (ghost eof). "
+                "Byte equality at the peer is NOT decided.",
+        "design_ref": "DESIGN.md section 4 C01",
+        "note": TB + " A-READ. C01.c recognises the one-read-per-chunk idiom of Window::fill; a different (correct) buffering scheme would need the rule extended.",
+        "technique": "modular normal forms of value terms from the abstract interpreter + path queries on the inlined supergraph + crate-wide who-may-use scans of MIR",
+    },
+    "C02": {
+        "category": "other",
+        "text": "For every arrival history at once: a block is queued only on the true edge of received == last.wrapping_add(1) (last := received is the "
+                "only write), the queued bytes are that packet's payload, no ACK is sent while accepted blocks are unwritten (ghost 'dirty' discharged by "
+                "the interpreter through all loops), the flush writes every element in order with write_all and clears only after success, ACKs carry the "
+                "last accepted number, the sink is an unbuffered truncating File, payloads are bounded by blksize. Kernel write semantics not decided.",
+        "design_ref": "DESIGN.md section 4 C02",
+        "note": TB,
+        "technique": "edge-dominance on the inlined supergraph + ghost-variable typestate discharged by abstract interpretation + abstract interpretation of impl Socket for UdpSocket",
+    },
+    "C08": {
+        "category": "other",
+        "text": "Loop invariant len(queue) <= size (= negotiated windowsize) of the sender's loops, every DATA transmission behind the time-out test, a rejected "
+                "ACK reaches the loop head without transmitting / re-arming the timer / moving the window / returning, the acceptance guard entails "
+                "distance < len(queue) for every windowsize 1..65535 (remove and distance+1 obligations discharged), and the receiver can return to the "
+                "receive after a push only through the not-full and not-short edges. Real-time behaviour of the timer is not decided.",
+        "design_ref": "DESIGN.md section 4 C08",
+        "note": TB,
+        "technique": "abstract interpretation (loop invariants, obligations) + dominance / reachability queries on the inlined supergraph",
+    },
+    "C15": {
+        "category": "other",
+        "text": "Block numbers are u16 on the wire and in both state machines; every arithmetic operation on a block number is wrapping_* or a checked "
+                "operation with discharged overflow assert; no ordering comparison between two raw block numbers; no saturating/checked u16 method on a block "
+                "number; acceptance guard (C08.d) and accept-only-next (C02.a) re-checked. Contents of >65535-block transfers are not decided.",
+        "design_ref": "DESIGN.md section 4 C15",
+        "note": TB,
+        "technique": "provenance (taint) of block-number symbols in the abstract interpreter's value terms + discharged overflow obligations",
+    },
     "C04": {
         "category": "other",
         "text": "Necessary structural conditions of loss tolerance, decided on the MIR of both worker closures for all fault sequences at once: "
